@@ -191,6 +191,25 @@ CHECKS['C19'] = dict(
     note='Trusted: Lean kernel/standard axioms; gcc, nm; the harness.',
     design='5 (C19)')
 
+CHECKS['C12'] = dict(
+    engine='h-frontend',
+    technique='Lean 4 proof (the patching table, base order, directory search order, alias chains of any depth, cycle '
+              'and unknown-name errors over a transcription of _update_node / _process_node_include / '
+              '_resolve_ft_alias / _apply_ft_inheritance) + differential runs of those four real functions and of '
+              'whole effective documents against the Lean definitions',
+    text='Props/C12.lean proves, for all trees, worlds and fuel: scalars/null replace, mappings merge recursively, '
+         'sequences append, barectf 3 members merge as the ordered map they denote, kind clashes replace, value and key '
+         'order of every patched property; include_order (bases in listed order, including object last); search_order; '
+         'a file on the inclusion stack, an alias met while being resolved, an unknown alias are errors; alias chains of '
+         'any length resolve. Partial: sufficiency of fuel (termination) is not proved. The reference patcher is the Lean '
+         'one; every run compares the real functions with it on generated base/overlay trees (both dialects), inclusion '
+         'worlds at all ten includable object kinds (cycles, missing files, shadowing directories, ignore flag), alias '
+         'universes and inheritance trees, and compares whole effective documents of re-expressed valid configurations; '
+         'plus a CLI run for the order of -I options.',
+    note='Trusted: Lean kernel/standard axioms; PyYAML loading (trees are compared after loading); the harness and '
+         'its generators. F13 (IndexError on an empty member item) was found by this correspondence and repaired in /repo.',
+    design='5 (C12), 3.2 (H-frontend)')
+
 NOT_APPLICABLE = {
 }
 
